@@ -1,4 +1,4 @@
-import HeraProofs.Props.C11
+import HeraModel.Model.Debugger
 import HeraProofs.Props.C15
 import HeraModel.Generated.Alias
 /-
